@@ -1,11 +1,30 @@
 import LhasaV.Lemmas.Bits
-import LhasaV.Spec.LhNewEnc
-import LhasaV.Model.LhNew
+import LhasaV.Lemmas.TreeCanon
+import LhasaV.Lemmas.LhNewCmd
+import LhasaV.Lemmas.LhNewFmt
 /-!
-# C01 — LHA static-Huffman methods decode every valid stream exactly
+# C01 — LHA static-Huffman methods (lh4 lh5 lh6 lh7 lhx lk7) decode every valid stream exactly
+
+`Spec.LhNewEnc` states the stream format as an encoder (`serialise`) of a structured description and
+`expand` its denotation; `LhNew` is the decoder model of `lh_new_decoder.c`, `Tree` of `tree_decode.c`,
+`Bits` of `bit_stream_reader.c`.  The layers of the round trip:
+(i) bit reader, (ii) canonical-code tree, (iii) table transmission, (iv) ring = window, (v) composition.
 -/
 namespace LhasaV.Props.C01
-open LhasaV
+open LhasaV LhasaV.Spec LhasaV.Spec.LhNewEnc
+
+/-- The format constants stated in the spec are the ones the compiled source uses (parameters
+regenerated from `/repo` on every run): a changed `OFFSET_BITS`, `NUM_CODES`, ring size or `LHARK`
+flag breaks this. -/
+theorem fmt_matches_source :
+    LhNewRT.fmtOf LhNew.lh5 = lh5 ∧ LhNewRT.fmtOf LhNew.lh6 = lh6 ∧ LhNewRT.fmtOf LhNew.lh7 = lh7 ∧
+    LhNewRT.fmtOf LhNew.lhx = lhx ∧ LhNewRT.fmtOf LhNew.lk7 = lk7 := by decide
+
+/-- … and the five parameter sets satisfy the side conditions of the round-trip lemmas (table
+capacities, 5-bit temp count, ring size a power of two ≤ 2^20, copy threshold 3). -/
+theorem params_ok : LhNewRT.RTParams LhNew.lh5 ∧ LhNewRT.RTParams LhNew.lh6 ∧ LhNewRT.RTParams LhNew.lh7 ∧
+    LhNewRT.RTParams LhNew.lhx ∧ LhNewRT.RTParams LhNew.lk7 :=
+  ⟨LhNewRT.rtParams_lh5, LhNewRT.rtParams_lh6, LhNewRT.rtParams_lh7, LhNewRT.rtParams_lhx, LhNewRT.rtParams_lk7⟩
 
 /-- Layer (i): the 32-bit buffer of `bit_stream_reader.c` refines the abstract bit list: for every
 reader state, callback chunking and field width `n ≤ 25`, `read_bits` returns the next `n` bits of
@@ -15,5 +34,63 @@ theorem bit_reader_refines (r : Bits) (n : Nat) (hi : Bits.Inv r) (hn : n ≤ 25
     (r.readBits n).1 = some (Bits.valOf ((Bits.stream r).take n)) ∧ Bits.Inv (r.readBits n).2 ∧
     Bits.stream (r.readBits n).2 = (Bits.stream r).drop n :=
   Bits.readBits_some r n hi hn h
+
+/-- Layer (ii): for EVERY complete code-length table (Kraft sum 1), over ANY previous contents of
+the table (the C reuses it between blocks), `build_tree` produces the canonical code of LHA's
+`make_table`: reading the code word of symbol `i` through `read_from_tree` returns `i` and consumes
+exactly that word. -/
+theorem tree_decodes_canonical_code (lb : Nat) (t : Array Nat) (treeLen : Nat) (lens : List Nat)
+    (hlb : 2 * lens.length ≤ lb) (hcomplete : Canon.complete lens = true)
+    (hbyte : ∀ l ∈ lens, l < 256)
+    (hlen : 2 * lens.length ≤ treeLen) (hsize : treeLen ≤ t.size)
+    (i : Nat) (hi : i < lens.length) (hli : 1 ≤ lens.getD i 0)
+    (r : Bits) (hinv : Bits.Inv r) (rest : List Bool)
+    (hs : Bits.stream r = Canon.word lens i ++ rest) :
+    ∃ r', Tree.readFromTree lb (Tree.buildTree lb t treeLen lens).1 r = .ok (some i, r') ∧
+      Bits.Inv r' ∧ Bits.stream r' = rest :=
+  Tree.readFromTree_canonical lb t treeLen lens hlb hcomplete hbyte hlen hsize i hi hli r hinv rest hs
+
+/-- the builder never writes outside the table for a complete code -/
+theorem tree_build_in_bounds (lb : Nat) (t : Array Nat) (treeLen : Nat) (lens : List Nat)
+    (hlb : 2 * lens.length ≤ lb) (hcomplete : Canon.complete lens = true) (hbyte : ∀ l ∈ lens, l < 256)
+    (hlen : 2 * lens.length ≤ treeLen) (hsize : treeLen ≤ t.size) :
+    (Tree.buildTree lb t treeLen lens).2 = false ∧ (Tree.buildTree lb t treeLen lens).1.size = t.size :=
+  Tree.buildTree_complete_no_oob lb t treeLen lens hlb hcomplete hbyte hlen hsize
+
+/-- the `n = 0` single-code form: every read returns the code and consumes nothing -/
+theorem tree_single (lb : Nat) (t : Array Nat) (c : Nat) (hc : c < lb) (ht : 0 < t.size) (r : Bits) :
+    Tree.readFromTree lb (Tree.setSingle lb t (c : Int)) r = .ok (some c, r) :=
+  Tree.readFromTree_single lb t c hc ht r
+
+/-- Layer (iv): the ring buffer with modulo indexing is the sliding window: a copy of `count` bytes
+from distance `d < N` (start index computed as the C does, in 32-bit unsigned arithmetic) produces
+exactly the bytes `copyWin` appends — self-overlap and copies reaching into the pre-filled window
+included — and keeps the ring/window relation. -/
+theorem ring_copy_is_window_copy (N : Nat) (fill : UInt8) (count d : Nat) (hd : d < N) (hdvd : N ∣ 4294967296)
+    (ring : Array UInt8) (pos : Nat) (out acc : List UInt8) (h : LhNewCmd.WinRel N fill ring pos out) :
+    ∃ ring' pos' new, Ring.copyLoop N count ((pos + N + 4294967296 - d - 1) % N) ring pos acc
+        = .ok (ring', pos', new.reverse ++ acc) ∧
+      new.length = count ∧ Lz77.copyWin fill count d out = out ++ new ∧ LhNewCmd.WinRel N fill ring' pos' (out ++ new) :=
+  LhNewCmd.copyLoop_win_start N fill count d hd hdvd ring pos out acc h
+
+theorem ring_literal (N : Nat) (fill : UInt8) (ring : Array UInt8) (pos : Nat) (out : List UInt8) (b : UInt8)
+    (h : LhNewCmd.WinRel N fill ring pos out) :
+    LhNewCmd.WinRel N fill (ring.setIfInBounds pos b) ((pos + 1) % N) (out ++ [b]) :=
+  LhNewCmd.winRel_lit N fill ring pos out b h
+
+/-- copy lengths: the LHark length code of the spec is inverted by `lhark_decode_copy_count` (all
+3 ≤ n ≤ 514, both codes for 514) -/
+theorem lhark_length_code_roundtrip (p : LhNew.Params) (f : Fmt) (hf : f.lhark = true) (hthr : p.copyThreshold = 3)
+    (n : Nat) (alt : Bool) (hn3 : 3 ≤ n) (hn : n ≤ 514) (halt : alt = true → n = 514)
+    (r : Bits) (hi : Bits.Inv r) (rest : List Bool) (hs : Bits.stream r = (lenCode f n alt).2 ++ rest) :
+    ∃ r', LhNew.lharkCopyCount p r (lenCode f n alt).1 = (some n, r') ∧ Bits.Inv r' ∧ Bits.stream r' = rest :=
+  LhNewCmd.lharkCopyCount_lenCode p f hf hthr n alt hn3 hn halt r hi rest hs
+
+/-- distances: the offset code of the spec (plain and LHark) is inverted by `read_offset_code` after
+the tree symbol, for every distance below 2^20 -/
+theorem distance_code_roundtrip (p : LhNew.Params) (f : Fmt) (hfl : f.lhark = p.lhark) (d : Nat) (hd : d < 2 ^ 20)
+    (r : Bits) (hi : Bits.Inv r) (rest : List Bool) (hs : Bits.stream r = (offCode f d).2 ++ rest) :
+    ∃ r', LhNewCmd.offTail p (offCode f d).1 r = .ok (some (d : Int), r') ∧ Bits.Inv r' ∧ Bits.stream r' = rest :=
+  LhNewCmd.offTail_offCode p f hfl d hd r hi rest hs
 
 end LhasaV.Props.C01
